@@ -89,6 +89,14 @@ def catalogue():
         out.append(c)
         c = _copy(base); c["samplers"] = [{"method": method}]
         out.append(c)
+    # ... an evaluation in which every realization fails, tolerated by the threshold, with a non-linear constraint: what is
+    # reported for the constraint then must not depend on what was computed before (neighbours: the same without failure)
+    for k in range(3):
+        c = _copy(base); c["nonlinear_constraints"] = {"lower_bounds": [-INF], "upper_bounds": [1.5]}
+        c["realizations"] = {"weights": [1.0, 2.0, 1.0], "realization_min_success": 0}
+        if k != 1:
+            c["_failall"] = 2
+        out.append(c)
     # ... linear constraints with a variable transform: the neighbours have the same number of rows but other coefficients, and
     # when things are re-used the TRANSFORM OBJECT is shared between them (same scales and offsets)
     for k in range(3):
@@ -148,6 +156,8 @@ def run_once(cfg, seed, reuse, label, nest=False):
     seedfree = cfg.pop("_seedfree", False)
     tf = cfg.pop("_transforms", None)
     seedobj = cfg.pop("_seedobj", None)
+    failall = cfg.pop("_failall", 0)
+    hascon = "nonlinear_constraints" in cfg
     if tf is not None and reuse:
         # the transform object of an earlier run with equal scales / offsets is re-used as well
         transforms = SHARED.setdefault("transforms", {}).setdefault(repr(tf), make_transforms(**tf))
@@ -176,8 +186,11 @@ def run_once(cfg, seed, reuse, label, nest=False):
                 hp.update(rows.tobytes())
         x = variables
         obj = ((x - 0.25 * (1 + context.realizations[:, None])) ** 2).sum(axis=1, keepdims=True)
+        if failall == state["n"]:
+            obj[:] = np.nan                 # every realization fails in this evaluation
         h.update(obj.tobytes())
-        return EvaluatorResult(objectives=obj)
+        con = None if not hascon else (x[:, :1] + x[:, 1:2] * x[:, 2:3] + 0.125 * context.realizations[:, None])
+        return EvaluatorResult(objectives=obj, constraints=con)
 
     def finished(event):
         for r in event.data["results"]:
@@ -218,7 +231,14 @@ def run_once(cfg, seed, reuse, label, nest=False):
     else:
         if seedobj is not None:
             cfg["optimizer"]["options"]["seed"] = np.random.default_rng(seedobj)
-        ctx = OptimizerContext(evaluator=evaluator, plugin_manager=_new_manager())
+        if STATE["plugged"]:
+            ctx = OptimizerContext(evaluator=evaluator, plugin_manager=_new_manager())
+        else:
+            # no manager is passed: the context makes its own.  "Another optimization" registers a prioritised sampler
+            # plug-in on the manager of ITS OWN context - nobody else's business
+            ctx = OptimizerContext(evaluator=evaluator)
+            if label in ("other", "inner"):
+                ctx.plugin_manager.add_plugin("sampler", "rvneg-own", NegatingSamplerPlugin(), prioritize=True)
         ctx.add_observer(EventType.FINISHED_EVALUATION, finished)
         plan = Plan(ctx)
         step = plan.add_step("optimizer")
